@@ -1000,7 +1000,6 @@ func intrStringsTrimSpace(ex *Exec, fn *ssa.Function, a []Value, fr *Frame) Valu
 // overflow saturates to MaxInt64 / MinInt64 with a range error.
 func intrAtoi(ex *Exec, fn *ssa.Function, a []Value, fr *Frame) Value {
 	s := a[0].(*StringV)
-	tb := ex.tb
 	val, ok := ex.atoiTerm(s)
 	errSyntax := ex.libError("strconv.ErrSyntax")
 	_ = errSyntax
@@ -1015,8 +1014,6 @@ func intrAtoi(ex *Exec, fn *ssa.Function, a []Value, fr *Frame) Value {
 		return TupleV{val, &IfaceV{}}
 	}
 	return TupleV{val, ex.libError("strconv.NumError")}
-	_ = tb
-	return nil
 }
 
 // atoiTerm returns (value, noError).
